@@ -15,7 +15,7 @@ Lean file read the source with the same patterns.  Extracted from /repo/src:
     `execute_unified_redis_command` → `LuaCommandAdapter::execute_lua_command` →
     `UnifiedCommandExecutor::execute`: no thread spawn / channel / async hand-off / `.await` in any
     of these bodies: `Gen.evalIsSynchronous` (coarse, as C07's `execIsSynchronous`);
-  * whether anything bounds a script's run time (`Gen.luaScriptTimeLimit`; DESIGN §6 row 12 — never probed dynamically);
+  * what bounds a script's run time (`Gen.luaScriptTimeLimit`: the limit in ms of the count hook in LuaEngine::eval, 0 = none; DESIGN §6 row 12);
   * the conversion arms the model's quirk switches stand for (`Gen.luaQuirksSeen`: name, as seen in
     the source now) — informational for the theorems, used by lib/c12.py to drive the model.
 """
@@ -186,11 +186,20 @@ def facts(src, strip_comments, fn_body):
         elif re.search(r"lua::handle_eval\s*\(", esha):
             q["evalshaDb0"] = True
     out["quirks"] = q
-    # ---- is there any bound on how long a script may run?  (hook / interrupt / elapsed-time test on the EVAL path)
+    # ---- is there any bound on how long a script may run?  The limit in milliseconds, 0 = none: a count hook installed on the
+    #      EVAL path (LuaEngine::eval / create_lua_context) that compares the elapsed time with a `const ...: Duration`
     ev = fn_body(eng, "eval")
     ctx = fn_body(eng, "create_lua_context")
     if ev is not None and ctx is not None:
-        out["time_limit"] = bool(re.search(r"set_hook|set_interrupt|HookTriggers|\.elapsed\(\)|set_memory_limit", ev + ctx))
+        body = ev + ctx
+        hook = re.search(r"\.\s*set_(?:global_)?hook\s*\(\s*HookTriggers::new\(\)\s*\.\s*every_nth_instruction\s*\(", body)
+        if not hook:
+            out["time_limit"] = 0 if not re.search(r"set_hook|set_global_hook|set_interrupt|HookTriggers", body) else None
+        else:
+            m = re.search(r"\.elapsed\(\)\s*(?:<|>=|>)\s*([A-Z_][A-Z0-9_]*)", body)
+            c = m and re.search(r"const\s+" + m.group(1) + r"\s*:\s*(?:std::time::)?Duration\s*=\s*(?:std::time::)?Duration::from_(secs|millis)\(\s*([0-9_]+)\s*\)\s*;", eng)
+            if c:
+                out["time_limit"] = int(c.group(2).replace("_", "")) * (1000 if c.group(1) == "secs" else 1)
     return out
 
 
@@ -229,10 +238,11 @@ def generate(src, strip_comments, fn_body, header):
         L.append("    plain nested calls, no thread spawn / channel / async hand-off / .await in any of these bodies%s -/" % ((" (" + f["sync_why"] + ")") if f["sync_why"] else ""))
         L.append("def evalIsSynchronous : Bool := %s" % ("true" if f["sync"] else "false"))
     if f["time_limit"] is None:
-        L.append('def luaScriptTimeLimit : Bool := extraction_failed "LuaEngine::eval / create_lua_context not recognised"')
+        L.append('def luaScriptTimeLimit : Nat := extraction_failed "LuaEngine::eval / create_lua_context: script time-limit hook not recognised"')
     else:
-        L.append("/-- `LuaEngine::eval` / `create_lua_context` install an instruction hook, interrupt or elapsed-time test (a bound on script run time) -/")
-        L.append("def luaScriptTimeLimit : Bool := %s" % ("true" if f["time_limit"] else "false"))
+        L.append("/-- the bound on a script's run time in milliseconds, 0 = none: `LuaEngine::eval` (EVAL and EVALSHA, a fresh Lua state per script)")
+        L.append("    installs a count hook (`every_nth_instruction`) that compares `start_time.elapsed()` with a `const ...: Duration` and raises a Lua error -/")
+        L.append("def luaScriptTimeLimit : Nat := %d" % f["time_limit"])
     seen = [(k, f["quirks"][k]) for k in QUIRK_NAMES if k in f["quirks"]]
     L.append("/-- the deviating form of each conversion arm as the source has it now (quirk switch of Model/Lua.lean, present?) ; an arm that was not recognised is absent -/")
     L.append("def luaQuirksSeen : List (String × Bool) := [%s]" % ", ".join('("%s", %s)' % (k, "true" if v else "false") for k, v in seen))
